@@ -44,6 +44,48 @@ theorem expandIdx_lt (R : List Nat) (i : Nat) (h : i ∈ expandIdx R) : i < R.le
   rw [(List.mem_replicate.1 hi).2]
   simpa using this
 
+theorem expandFrom_spec : ∀ (R : List Nat) (s : Nat),
+    (((List.range' s R.length).zip R).flatMap (fun p => List.replicate p.2 p.1)).Pairwise (· ≤ ·) ∧
+    (∀ y ∈ ((List.range' s R.length).zip R).flatMap (fun p => List.replicate p.2 p.1), s ≤ y) ∧
+    ∀ i, (((List.range' s R.length).zip R).flatMap (fun p => List.replicate p.2 p.1)).count i
+      = if i < s then 0 else R.getD (i - s) 0
+  | [], s => by simp
+  | r :: R, s => by
+    obtain ⟨ih1, ih2, ih3⟩ := expandFrom_spec R (s + 1)
+    simp only [List.length_cons, List.range'_succ, List.zip_cons_cons, List.flatMap_cons]
+    refine ⟨?_, ?_, ?_⟩
+    · rw [List.pairwise_append]
+      refine ⟨?_, ih1, ?_⟩
+      · exact List.pairwise_of_forall_mem_list (fun a ha b hb => by
+          rw [(List.mem_replicate.1 ha).2, (List.mem_replicate.1 hb).2])
+      · intro x hx y hy
+        rw [(List.mem_replicate.1 hx).2]
+        have := ih2 y hy; omega
+    · intro y hy
+      rcases List.mem_append.1 hy with h | h
+      · rw [(List.mem_replicate.1 h).2]
+      · have := ih2 y h; omega
+    · intro i
+      rw [List.count_append, ih3 i, List.count_replicate]
+      by_cases h1 : i < s
+      · have : ¬ (s == i) = true := by simp; omega
+        simp [h1, this]; omega
+      · by_cases h2 : i = s
+        · subst h2; simp
+        · have h3 : ¬ (s == i) = true := by simp; omega
+          have h4 : ¬ i < s + 1 := by omega
+          obtain ⟨d, hd⟩ : ∃ d, i - s = d + 1 := ⟨i - s - 1, by omega⟩
+          have h5 : i - (s + 1) = d := by omega
+          simp [h1, h3, h4, hd, h5]
+
+/-- `expandIdx` is determined by: ascending, and index `i` occurs exactly `R[i]` times -/
+theorem expandIdx_spec (R : List Nat) :
+    (expandIdx R).Pairwise (· ≤ ·) ∧ ∀ i, (expandIdx R).count i = R.getD i 0 := by
+  obtain ⟨h1, _, h3⟩ := expandFrom_spec R 0
+  unfold expandIdx
+  rw [List.range_eq_range']
+  exact ⟨h1, fun i => by simpa using h3 i⟩
+
 /-- expanding any list by counts = reading the list at the expanded indices -/
 theorem zip_flatMap_replicate_eq (d : β) (l : List β) (R : List Nat) (h : l.length = R.length) :
     (l.zip R).flatMap (fun p => List.replicate p.2 p.1) = (expandIdx R).map (fun i => l.getD i d) := by
@@ -309,7 +351,7 @@ theorem repeatAxis_count_err (a : Arr α) (zero : α) (repeats : List Nat) (axis
       unfold dimClash
       simp only [Bool.or_eq_true, Bool.and_eq_true, bne_iff_ne, beq_iff_eq]
       omega
-    rw [if_pos (by simp [Arr.flat, isBroadcastable_1d, hcl])]
+    rw [if_pos (by simp only [Arr.flat, isBroadcastable_1d, hcl]; rfl)]
   rw [this]; rfl
 
 /-! ### `repeat` along an axis -/
